@@ -131,9 +131,18 @@ class Check:
             hyps = [h if isinstance(h, z3.ExprRef) else z3.BoolVal(bool(h)) for h in hyps]
             st, be, model, dt, smt = solve(hyps, goal, self.timeout_ms)
             o.status, o.backend, o.time_s, o.smt = st, be, dt, smt
+            if st == "undecided" and getattr(self, "finite_sizes", None):
+                # quantified query left open: look for a counter-model over a small finite universe
+                from .finite import finite_refute
+                t1 = time.time()
+                model, fin = finite_refute(hyps, goal, self.finite_sizes, self.timeout_ms)
+                o.time_s += time.time() - t1
+                if model is not None:
+                    st, o.status, o.backend = "refuted", "refuted", "z3(finite-instance of the obligation)"
+                    o.fin = fin
             if st == "refuted":
                 o.model = model
-                o.detail = _model_str(model)
+                o.detail = _model_str(model) if not hasattr(o, "fin") else "finite counter-model: " + _model_str(model)[:900]
             if st == "discharged" and kind == "proof":
                 # vacuity guard: the hypotheses must be satisfiable
                 s = z3.Solver()
@@ -232,6 +241,59 @@ class Check:
             self.engine_stats[k] = self.engine_stats.get(k, 0) + v
 
     # ------------------------------------------------------------------ finish
+    # ------------------------------------------------------------------ parallel sections
+    def section(self, name, fn):
+        """Independent group of obligations.  In the parent process sections are only registered
+        (the driver re-runs the contract once per section in a child process, in parallel, and
+        merges the obligations); in a child only the selected section runs."""
+        only = os.environ.get("PYVC_SECTION")
+        if only is None and os.environ.get("PYVC_SERIAL") != "1":
+            self.sections = getattr(self, "sections", []) + [name]
+            return
+        if only is None or only == name:
+            fn()
+
+    def dump_child(self, path):
+        """Child side: replay own violations, then write obligations for the parent."""
+        known = load_known()
+        os.makedirs(os.path.join(VERIF, "replays"), exist_ok=True)
+        out = []
+        for o in self.obls:
+            d = o.to_json()
+            d["detail"] = o.detail
+            if o.status == "refuted" and match_known(known, self.pid, o.name) is None:
+                self._replay(o)
+                d["replay_path"] = o.replay_path
+                d["replay_confirmed"] = bool(o.replay and o.replay.get("confirmed"))
+            out.append(d)
+        with open(path, "w") as f:
+            json.dump({"obligations": out, "functions": self.functions, "assumptions": self.assumptions,
+                       "samples": self.samples, "engine": self.engine_stats, "not_covered": self.not_covered,
+                       "notes": self.notes, "bounded": self.bounded}, f, default=str)
+
+    def merge_child(self, data):
+        for d in data["obligations"]:
+            o = Obl(d["name"], d.get("function"))
+            o.status, o.backend, o.time_s, o.kind, o.detail = d["status"], d.get("backend"), d.get("time_s", 0.0), d.get("kind", "proof"), d.get("detail", "")
+            if "replay_path" in d:
+                o.replay_path = d["replay_path"]
+                o.replay = {"confirmed": d.get("replay_confirmed", False)}
+                o.replayed = True
+            self.obls.append(o)
+        self.functions.update(data.get("functions", {}))
+        for a in data.get("assumptions", []):
+            if a not in self.assumptions:
+                self.assumptions.append(a)
+        for a in data.get("not_covered", []):
+            if a not in self.not_covered:
+                self.not_covered.append(a)
+        self.notes += [n for n in data.get("notes", []) if n not in self.notes]
+        self.bounded.update(data.get("bounded", {}))
+        if len(self.samples) < 4:
+            self.samples += data.get("samples", [])[: 4 - len(self.samples)]
+        for k, v in data.get("engine", {}).items():
+            self.engine_stats[k] = self.engine_stats.get(k, 0) + v
+
     def finish(self) -> int:
         known = load_known()
         viol, undec, crash = [], [], []
@@ -257,7 +319,8 @@ class Check:
         # replay violations
         os.makedirs(os.path.join(VERIF, "replays"), exist_ok=True)
         for o in viol:
-            self._replay(o)
+            if not getattr(o, "replayed", False):
+                self._replay(o)
         wall = time.time() - self.t0
         ev = {
             "property_id": self.pid, "tier": self.tier, "seed": self.seed,
@@ -321,7 +384,8 @@ class Check:
         rp = self.replayers.get(o.name) or self.replayers.get(o.name.split("/path")[0])
         if rp is not None and o.model is not None:
             try:
-                spec = rp(o.model)
+                import inspect
+                spec = rp(o.model, fin=getattr(o, "fin", None)) if "fin" in inspect.signature(rp).parameters else rp(o.model)
                 if spec is not None:
                     rec["script"] = spec["script"]
                     rec["input"] = spec.get("input")
